@@ -57,6 +57,8 @@ pub struct Record {
     pub inconclusive: Vec<String>,
     pub notes: Vec<String>,
     pub entropy_calls: u64,
+    /// injected aborts that actually fired in earlier calls of this run
+    pub aborts_fired: u64,
     pub states_checked: usize,
     /// fingerprints of the recorded intermediate D-sets (coverage measure)
     pub state_fps: Vec<u64>,
@@ -89,6 +91,7 @@ impl Record {
             "inconclusive": self.inconclusive,
             "notes": self.notes,
             "entropy_calls": self.entropy_calls,
+            "aborts_fired": self.aborts_fired,
             "states_checked": self.states_checked,
             "state_fps": self.state_fps.iter().map(|f| format!("{:016x}", f)).collect::<Vec<_>>(),
             "first_bad_state": self.first_bad_state,
@@ -146,6 +149,7 @@ impl Record {
             inconclusive: strs(&v["inconclusive"]),
             notes: strs(&v["notes"]),
             entropy_calls: v["entropy_calls"].as_u64().unwrap_or(0),
+            aborts_fired: v["aborts_fired"].as_u64().unwrap_or(0),
             states_checked: v["states_checked"].as_u64().unwrap_or(0) as usize,
             state_fps: v["state_fps"].as_array().map(|a| a.iter().map(|x| u64::from_str_radix(x.as_str().unwrap_or("0"), 16).unwrap_or(0)).collect()).unwrap_or_default(),
             first_bad_state: v["first_bad_state"].as_str().map(|s| s.to_string()),
@@ -233,10 +237,38 @@ pub enum PreInput {
     Battery(PartialDSym, bool),
 }
 
-/// Execute the explicit call history on the current (run) thread.
-fn run_pre(pre: &[PreInput]) {
-    for p in pre {
-        let _ = std::panic::catch_unwind(std::panic::AssertUnwindSafe(|| match p {
+/// Injected aborts that fired in this worker process (read by the builder
+/// thread before and after the run thread; runs are strictly sequential).
+static ABORTS_FIRED: std::sync::atomic::AtomicU64 = std::sync::atomic::AtomicU64::new(0);
+
+#[cfg(rust_dsymbols_verif)]
+fn arm(abort_at: Option<u64>) {
+    if let Some(n) = abort_at {
+        rust_dsymbols::verif_hooks::begin(None, false);
+        rust_dsymbols::verif_hooks::arm_abort(n);
+    }
+}
+
+#[cfg(rust_dsymbols_verif)]
+fn disarm(abort_at: Option<u64>) {
+    if abort_at.is_some() {
+        let _ = rust_dsymbols::verif_hooks::end();
+    }
+}
+
+#[cfg(not(rust_dsymbols_verif))]
+fn arm(_abort_at: Option<u64>) {}
+
+#[cfg(not(rust_dsymbols_verif))]
+fn disarm(_abort_at: Option<u64>) {}
+
+/// Execute the explicit call history on the current (run) thread. An earlier
+/// call with `abort_at` unwinds at that hook event (fault injection); like
+/// any panic of an earlier call it is caught here, as a caller would.
+fn run_pre(pre: &[(PreInput, Option<u64>)]) {
+    for (p, abort_at) in pre {
+        arm(*abort_at);
+        let r = std::panic::catch_unwind(std::panic::AssertUnwindSafe(|| match p {
             PreInput::Euclid(s) => {
                 let _ = is_euclidean(s);
             }
@@ -245,6 +277,13 @@ fn run_pre(pre: &[PreInput]) {
             }
             PreInput::Battery(s, with_covers) => battery(s, *with_covers),
         }));
+        disarm(*abort_at);
+        if let Err(e) = r {
+            let msg = e.downcast_ref::<String>().cloned().or_else(|| e.downcast_ref::<&str>().map(|s| s.to_string())).unwrap_or_default();
+            if msg.contains("injected abort") {
+                ABORTS_FIRED.fetch_add(1, std::sync::atomic::Ordering::SeqCst);
+            }
+        }
     }
 }
 
@@ -516,7 +555,7 @@ impl Executor {
         self.ptc_cache[&key].clone()
     }
 
-    fn build_pre(&mut self, spec: &Spec) -> Vec<PreInput> {
+    fn build_pre(&mut self, spec: &Spec) -> Vec<(PreInput, Option<u64>)> {
         let mut out = vec![];
         for p in &spec.pre {
             let s = match Sym::parse(&p.base) {
@@ -530,10 +569,10 @@ impl Executor {
                 _ => continue,
             };
             match p.op {
-                Op::IsEuclidean => out.push(PreInput::Euclid(s.to_partial())),
+                Op::IsEuclidean => out.push((PreInput::Euclid(s.to_partial()), p.abort_at)),
                 Op::SimplifyPtc => {
                     if let Some(c) = self.ptc(&s) {
-                        out.push(PreInput::Simplify(c.to_partial()));
+                        out.push((PreInput::Simplify(c.to_partial()), p.abort_at));
                     }
                 }
                 // the cover builders enumerate subgroups of index up to 48 or
@@ -541,9 +580,9 @@ impl Executor {
                 // small (the planner draws battery symbols from the literals)
                 Op::Battery => {
                     let ok = s.n <= 24 && self.precondition(&s).is_ok();
-                    out.push(PreInput::Battery(s.to_partial(), ok));
+                    out.push((PreInput::Battery(s.to_partial(), ok), None));
                 }
-                _ => out.push(PreInput::Simplify(s.to_partial())),
+                _ => out.push((PreInput::Simplify(s.to_partial()), p.abort_at)),
             }
         }
         out
@@ -605,6 +644,7 @@ impl Executor {
             }
         }
 
+        let aborts_before = ABORTS_FIRED.load(std::sync::atomic::Ordering::SeqCst);
         let t_run = std::time::Instant::now();
         if let Some(f) = self.on_run_phase.as_mut() {
             f(true);
@@ -650,6 +690,7 @@ impl Executor {
             f(false);
         }
         rec.entropy_calls = out.entropy_calls;
+        rec.aborts_fired = ABORTS_FIRED.load(std::sync::atomic::Ordering::SeqCst) - aborts_before;
         match out.result {
             Err(msg) => {
                 rec.outcome = "panic".into();
@@ -853,6 +894,7 @@ impl Executor {
             Repr::SimpleDSym => Input::C(x.to_simple()),
             Repr::PartialDSym => Input::D(x.to_partial()),
         };
+        let aborts_before = ABORTS_FIRED.load(std::sync::atomic::Ordering::SeqCst);
         let t_run = std::time::Instant::now();
         if let Some(f) = self.on_run_phase.as_mut() {
             f(true);
@@ -880,6 +922,7 @@ impl Executor {
             f(false);
         }
         rec.entropy_calls = out.entropy_calls;
+        rec.aborts_fired = ABORTS_FIRED.load(std::sync::atomic::Ordering::SeqCst) - aborts_before;
         let ro = match out.result {
             Err(msg) => {
                 rec.outcome = "panic".into();
